@@ -58,7 +58,9 @@ class C19(Property):
             "ConcurrentCacher(instrumented MemoryCacher, recording list, scheduler lock) under a baton scheduler (random or "
             "preemption-bounded schedules); on a hang the wait-for edges of the real threads are compared with the model's wait-for graph; plus DiskCacher cases, alone and "
             "wrapped in ConcurrentCacher (getter raising after j lines, file truncated at byte n, zero-length "
-            "file), a few free-running runs on a real multiprocessing RawArray+Lock, and reader-depth probes (127-400 simultaneous read locks on one "
+            "file), a few free-running runs on a real multiprocessing RawArray+Lock, OpenmlSource.read against an instrumented 3-permit "
+            "openml_semaphore with the fake data set cached before / by a peer during acquire() / served on demand and full, abandoned and raising "
+            "reads (permits and cacher locks must be back afterwards), and reader-depth probes (127-400 simultaneous read locks on one "
             "slot of the lock table built by CobaMultiprocessor, by nesting or by threads at a barrier). non-trivial = a scheduled run in which at least "
             "two threads operated on one index and a write lock was taken, or a disk case with a cut strictly inside the entry")
     trusted_base = [
@@ -67,6 +69,8 @@ class C19(Property):
         "the shared array's cell type can hold the number of simultaneous read locks on one slot (the model's cell is an unbounded Int, "
         "theorem slot_counts_readers); probed on the RawArray that coba/multiprocessing.py itself allocates with 127-400 nested re-entrant "
         "reads by one caller and 130-300 threads inside their with-blocks",
+        "OpenmlSource: only the semaphore protocol of read() is modelled (openmlSem); the REST API is replaced by cache entries of a fake data set; "
+        "the generator's `finally:` runs when a read is exhausted, raises or is closed (CPython generator semantics)",
         "gzip/zlib: reading a truncated .gz member raises before end of file (trailer check)",
         "inner cacher operations are those of MemoryCacher (a failing getter stores nothing); DiskCacher is modelled separately as a map",
         "the baton scheduler and the event labelling of harness/props/c19_sched.py, c19_run.py (a failed lock guard followed by the "
@@ -197,6 +201,17 @@ class C19(Property):
             progs.append(p)
         return {"kind": "mp", "keys": keys, "progs": progs, "parts": 2, "wiring": rng.chance(0.6)}
 
+    def gen_openml_case(self, rng, tier):
+        reads = []
+        for _ in range(rng.choice([1, 2, 3, 4, 5])):
+            rd = {"order": rng.wchoice([(25, "before"), (50, "during"), (25, "uncached")]),
+                  "mode": rng.wchoice([(60, "full"), (40, "partial")])}
+            b = rng.wchoice([(60, None), (20, "deactivated"), (20, "badfeat")])
+            if b:
+                rd["bad"] = b
+            reads.append(rd)
+        return {"kind": "openml", "reads": reads, "concurrent": rng.chance(0.6), "semaphore": not rng.chance(0.1), "permits": 3}
+
     def gen_depth_case(self, rng, tier):
         if rng.chance(0.7):
             return {"kind": "depth", "variant": "nest", "n": rng.choice([127, 128, 129, 130, 200, 255, 256, 257, 300, 400])}
@@ -206,6 +221,8 @@ class C19(Property):
         r = rng.below(1000)
         if r < 3:
             return self.gen_depth_case(rng, tier)
+        if r < 23:
+            return self.gen_openml_case(rng, tier)
         if r < 120:
             return self.gen_disk_case(rng, tier)
         if r < 128:
@@ -260,6 +277,15 @@ class C19(Property):
                     ["truncate", 0], ["truncate", 1], ["truncate", 10], ["truncate", 20], ["truncate", 1000]):
             cs.append({"kind": "disk", "lines": ["a,b", "c"], "lines2": ["second"], "cut": cut})
             cs.append({"kind": "disk", "lines": ["a,b", "c"], "lines2": ["second"], "cut": cut, "conc": True})
+        # OpenmlSource and the 3-permit download semaphore: every order of "cached" x every way a read can end
+        for order in ("before", "during", "uncached"):
+            for mode, bad in (("full", None), ("partial", None), ("full", "deactivated"), ("full", "badfeat")):
+                rd = {"order": order, "mode": mode}
+                if bad:
+                    rd["bad"] = bad
+                cs.append({"kind": "openml", "reads": [rd], "concurrent": True, "semaphore": True, "permits": 3})
+        cs.append({"kind": "openml", "reads": [{"order": "during", "mode": "full"}] * 4, "concurrent": False, "semaphore": True, "permits": 3})
+        cs.append({"kind": "openml", "reads": [{"order": "during", "mode": "full"}, {"order": "uncached", "mode": "partial"}], "concurrent": True, "semaphore": False, "permits": 3})
         # more simultaneous readers of one slot than a signed byte can count, on the lock table the library allocates
         cs.append({"kind": "depth", "variant": "nest", "n": 200})
         cs.append({"kind": "depth", "variant": "nest", "n": 128})
@@ -308,6 +334,8 @@ class C19(Property):
             return self.eval_mp(case, driver)
         if kind == "depth":
             return self.eval_depth(case, driver)
+        if kind == "openml":
+            return self.eval_openml(case, driver)
         return self.eval_sched(case, driver)
 
     def eval_sched(self, case, driver):
@@ -554,6 +582,39 @@ class C19(Property):
                 fails.append(F("B", "getter for key #%s completed %d times with %d rmv calls" % (k, n_ok, o["rmv_calls"].get(k, 0)), "mp-single-flight"))
         return {"fails": fails, "nontrivial": False, "tags": tags, "impl": o, "model": None}
 
+    def eval_openml(self, case, driver):
+        fails, tags = [], ["openml-semaphore"]
+        o = R.run_openml(case)
+        has_sem = bool(case.get("semaphore", True))
+        for n, (rd, res) in enumerate(zip(case["reads"], o["reads"])):
+            tags.append("openml:%s/%s/%s" % (rd["order"], rd.get("mode", "full"), rd.get("bad") or "good"))
+            where = "OpenmlSource.read #%d (source %s, %s read%s)" % (
+                n, {"before": "cached beforehand", "during": "cached by a peer while this reader waited in acquire()", "uncached": "not cached"}[rd["order"]],
+                rd.get("mode", "full"), ", " + rd["bad"] if rd.get("bad") else "")
+            if res["outcome"] == "would-wait":
+                fails.append(F("B", "%s: no permit of the openml semaphore is left (%d of %d), the reader waits forever" % (where, res["permits_after"], o["permits0"]),
+                               "openml-reader-waits-forever"))
+                break
+            if res["permits_after"] != o["permits0"]:
+                fails.append(F("B", "%s: afterwards %d of %d semaphore permits are free (acquire %d, release %d)"
+                               % (where, res["permits_after"], o["permits0"], res["acquires"], res["releases"]), "openml-semaphore-permit-leaked"))
+            if res.get("array_nonzero") or res.get("locks_nonzero"):
+                fails.append(F("B", "%s: cacher locks remain: %s %s" % (where, res.get("array_nonzero"), res.get("locks_nonzero")), "array-nonzero-after-exit"))
+            if not rd.get("bad") and res["outcome"] != "ok":
+                fails.append(F("B", "%s: %s" % (where, res["outcome"]), "openml-read-failed"))
+        model = None
+        if driver is not None and not fails:
+            model = []
+            for rd, res in zip(case["reads"], o["reads"]):
+                m = driver.ask({"op": "sem", "hasSem": has_sem, "cached1": rd["order"] == "before", "cached2": rd["order"] != "uncached"})
+                model.append(m)
+                if [m["acquires"], m["releases"]] != [res["acquires"], res["releases"]]:
+                    fails.append(F("A", "semaphore use of a %s read: implementation acquire/release %s, model %s"
+                                   % (rd["order"], [res["acquires"], res["releases"]], m), "A:openml-semaphore"))
+                    break
+        nontrivial = any(rd["order"] == "during" for rd in case["reads"])
+        return {"fails": fails, "nontrivial": nontrivial, "tags": tags, "impl": o, "model": model}
+
     def eval_depth(self, case, driver):
         fails = []
         o = R.run_depth(case)
@@ -593,6 +654,9 @@ class C19(Property):
         if case.get("kind", "sched") != "sched":
             if case.get("kind") == "disk" and len(case["lines"]) > 1:
                 yield dict(case, lines=case["lines"][:-1])
+            if case.get("kind") == "openml" and len(case["reads"]) > 1:
+                for k in range(len(case["reads"])):
+                    yield dict(case, reads=case["reads"][:k] + case["reads"][k + 1:])
             if case.get("kind") == "depth" and case["n"] > 1:
                 for m in (case["n"] // 2, case["n"] - 1):
                     yield dict(case, n=m)
@@ -617,7 +681,7 @@ class C19(Property):
     def snippet(self, case):
         if case is None:
             return ""
-        fn = {"sched": "run_sched", "disk": "run_disk", "mp": "run_mp", "depth": "run_depth"}[case.get("kind", "sched")]
+        fn = {"sched": "run_sched", "disk": "run_disk", "mp": "run_mp", "depth": "run_depth", "openml": "run_openml"}[case.get("kind", "sched")]
         return ("# runs the case on the real coba cachers (threads under the baton scheduler of /verif/harness/props/c19_sched.py)\n"
                 "import sys, json; sys.path[:0]=[%r, '/verif/harness']\nfrom props.c19_run import %s\n"
                 "case = json.loads(%r)\nr = %s(case)\nprint(json.dumps({k: v for k, v in r.items() if k != 'events'}, indent=1, default=str))\n"
